@@ -86,10 +86,13 @@ fn check_diagnostic(msg: &str, input: &[u8], files: &[&str]) -> Option<String> {
             ex = e;
         }
         let src = src_lines[line_no - 1];
-        let contained = ex.is_empty() || src.windows(ex.len()).any(|w| w == ex);
-        // An excerpt that legitimately contains "..." text is covered by the
-        // untrimmed comparison.
-        let contained = contained || src.windows(excerpt.len().max(1)).any(|w| w == excerpt);
+        // The excerpt is shown as text: bytes that are not UTF-8 appear as
+        // U+FFFD, also where a cut split something.  Compare in that form,
+        // ignoring replacement characters at the ends of the excerpt.
+        let shown = String::from_utf8_lossy(ex).to_string();
+        let shown = shown.trim_matches('\u{fffd}');
+        let line_text = String::from_utf8_lossy(src).to_string();
+        let contained = line_text.contains(shown) || src.windows(excerpt.len().max(1)).any(|w| w == excerpt);
         if !contained {
             return Some(format!("excerpt is not part of line {}: {:?}", line_no, msg));
         }
@@ -240,40 +243,57 @@ fn mutate_job(ctx: &mut Ctx, res: &mut ShardResult, depth: usize) {
 }
 
 fn columns_job(ctx: &mut Ctx, res: &mut ShardResult) {
-    let units = ["a", "é", "€", "😀", "aé", "a€", "a😀", "é€"];
+    // Units of 1-4-byte characters, and raw bytes that are not UTF-8 at all
+    // (continuation bytes, a lone lead byte, Latin-1).
+    let units: [&[u8]; 13] = [
+        b"a",
+        "é".as_bytes(),
+        "€".as_bytes(),
+        "😀".as_bytes(),
+        "aé".as_bytes(),
+        "a€".as_bytes(),
+        "a😀".as_bytes(),
+        "é€".as_bytes(),
+        b"\x80",
+        b"\xbf\xbf",
+        b"a\x80\x80\x80\x80\x80",
+        b"\xe2\x82",
+        b"\xff",
+    ];
     let job = ctx.job.clone();
     let mut idx = 0u64;
-    let mut run = |text: String, res: &mut ShardResult| {
+    let mut run = |text: Vec<u8>, res: &mut ShardResult| {
         idx += 1;
         if idx % ctx.nshards != ctx.shard {
             return;
         }
-        ctx.marker.set(idx, text.as_bytes());
-        check_manifest(text.as_bytes(), &["build.ninja"], &job, res);
+        ctx.marker.set(idx, &text);
+        check_manifest(&text, &["build.ninja"], &job, res);
         if idx % 9973 == 0 {
-            res.sample(|| json!({"manifest": text}));
+            res.sample(|| json!({"manifest": String::from_utf8_lossy(&text)}));
         }
     };
+    let cat = |parts: &[&[u8]]| -> Vec<u8> { parts.concat() };
     for unit in units {
         for lead in 0..4usize {
             let mut lens: Vec<usize> = (1..=70).collect();
             lens.extend([4085, 4090, 4094, 4095, 4096, 4097]);
             for &len in &lens {
-                let mut s = "a".repeat(lead);
+                let mut s: Vec<u8> = vec![b'a'; lead];
                 while s.len() < len {
-                    s.push_str(unit);
+                    s.extend_from_slice(unit);
                 }
                 // error at the end of a long line (missing colon)
-                run(format!("build {}\n", s), res);
+                run(cat(&[b"build ", &s, b"\n"]), res);
                 // error at the start, long tail
-                run(format!(" {}\n", s), res);
+                run(cat(&[b" ", &s, b"\n"]), res);
                 // error in the middle, long head and tail
                 if len <= 70 {
                     for tail in [0usize, 10, 30, 50] {
-                        let t: String = std::iter::repeat(unit).take(tail).collect();
-                        run(format!("build {}$~{}\n", s, t), res);
-                        run(format!("rule r\n  command = {}${{{}\n", s, t), res);
-                        run(format!("build {}: phony\n{} = 1\n  {}\n", "o", "v", s), res);
+                        let t: Vec<u8> = unit.repeat(tail);
+                        run(cat(&[b"build ", &s, b"$~", &t, b"\n"]), res);
+                        run(cat(&[b"rule r\n  command = ", &s, b"${", &t, b"\n"]), res);
+                        run(cat(&[b"build o: phony\nv = 1\n  ", &s, b"\n"]), res);
                     }
                 }
             }
